@@ -153,3 +153,10 @@ func VerifFirstContact(hosts, workers int) string {
 	}
 	return "ok"
 }
+
+// VerifSize reports the number of buckets in the table and the configured bound.
+func (m *BucketManager) VerifSize() (int, int) {
+	m.mu.Lock()
+	defer m.mu.Unlock()
+	return len(m.buckets), m.maxBuckets
+}
